@@ -98,6 +98,21 @@ CHECKS = {
                 text="Identifier half: TLC checks that swapping a deprecated class for its replacement at any position leaves Enc unchanged; real "
                      "graphs with K2Old/K2 swaps are validated. Repair half (fix_deprecated): see evidence key fix_deprecated.",
                 note="Frozen schema states that K2Old hashes with K2's type identifier; cross-checked against the live classes."),
+    "C12": dict(category="model_checking", engine="E3+E2", design="5 (C12), 3.5",
+                technique="TLA+ XpmConfig DefsOrder: TLC invariants (each object once, children first) + definition lists of real graphs validated by TLC + round-trip isomorphism against the abstract graph + echo task runs",
+                text="The definition list (params.json / state_dict / save) is specified as a post-order walk; TLC checks its invariants on the "
+                     "structure family and validates the order produced by the real code for random graphs; every graph is written and loaded "
+                     "three ways (and written again after loading) and compared node by node with the abstract graph (classes, every value incl. "
+                     "ignored ones, meta flags, sharing, pre/init tasks, task links, identifiers recomputed); real job parameter files are "
+                     "loaded and executed by experimaestro.run in a fresh interpreter and the values and tags seen by the task are compared.",
+                note="The abstract graph of XpmConfig is the reference of the isomorphism; Path-typed data parameters (DataPath serialisation) are not covered."),
+    "C13": dict(category="model_checking", engine="E3", design="5 (C13), 3.5",
+                technique="TLA+ XpmConfig InstNodes/InstPre: TLC invariants + instantiated sets of real graphs validated by TLC + call-count/wiring comparison with the abstract graph",
+                text="Which nodes are instantiated and which pre-tasks run is specified (FromPython walk); TLC validates the sets observed on "
+                     "random real graphs (sharing, cycles, pre/init tasks at any node); wiring is compared object by object with the abstract "
+                     "graph for instance() (also with a shared ObjectStore) and for parameter-file loading (post-init once after parameters, "
+                     "pre-tasks once, init tasks once after the pre-tasks).",
+                note="The task body following the init tasks is checked through the echo runs of C12."),
 }
 
 REASON_TODO = "check not built yet (build in progress, see DESIGN.md section 12)"
